@@ -51,7 +51,7 @@ CONFIGS = [
     ("uint8", 0, 100, None, True),
     ("uint8", 1, 101, 5, True),
     ("uint8", 10, 95, 20, True),
-    ("uint8", 0, 100, 0, False),
+    ("uint8", 0, 100, 0, True),
     ("uint16", 0, 65535, 1, True),
     ("uint16", 0, 1000, 10, False),
     ("uint16", 50, 400, None, False),
@@ -101,7 +101,7 @@ CONFIGS = [
     ("float", 0, U64, 1, False),
     ("float", 0, 5000, 0.01, True),
     ("float", 0.5, 30.5, 1, True),
-    ("float", 0, 100, 0, False),
+    ("float", 0, 100, 0.0, True),
     ("float", None, 35, 0.5, False),
     ("float", 10, None, 0.1, False),
     ("float", 0, 10, 3, False),
